@@ -337,7 +337,8 @@ class Gen:
                           "offset": d(st.sampled_from([None, None, 0.0, 10.0, -2.5]))}
             pt["unit"] = d(st.sampled_from(["s", "seconds", "ms", None] if self.p.get("time_unit_optional", True) else ["s", "ms"]))
             pt["epoch"] = d(st.sampled_from([None, "TAI", "J2000", "UNIX", "2020-01-01", "2000-01-01T12:00:00Z"]))
-            pt["offset_from"] = None
+            # <ReferenceTime><OffsetFrom parameterRef=.../>: documentation of the time origin, not used for decoding
+            pt["offset_from"] = d(st.sampled_from([a.name for a in avail])) if avail and self.chance(0.3) else None
         elif kind == "enum":
             which = d(st.sampled_from(["int", "int", "int", "float", "str"]))
             if which == "str" and not self.p.get("small_ints"):
